@@ -370,7 +370,7 @@ def check_table(m, phase, fe, cfg, report):
                        "%.3g" % (Tm, x.tolist(), exact.tolist(), d, tolx), dict(T=float(Tm)))
             vex = m.V(exact, Tm)
             # V is stationary at the minimum: error quadratic in the field error
-            tolv = 1e-9 * abs(vex) + 10 * max(emin, 0.02 * Ts ** 2) * base ** 2 \
+            tolv = max(1e-9, rTol) * abs(vex) + 10 * max(emin, 0.02 * Ts ** 2) * base ** 2 \
                 + 4 * (5 / 384) * hn ** 4 * d4v
             worst["interpv"] = max(worst.get("interpv", 0.0), abs(v - vex) / tolv)
             if abs(v - vex) > tolv:
